@@ -348,11 +348,43 @@ func ruleT4(c *Ctx) {
 			}
 			n++
 			ra := m.ap(cc.Value)
+			if sel, ok := cc.Value.(*ssa.Call); ok {
+				// the implementation picked by a selector method of the receiver: what that method can return
+				if g := m.callee(sel.Common()); g != nil && recvNamed(g) == recvNamed(f) && len(sel.Call.Args) == 1 && sel.Call.Args[0] == ssa.Value(f.Params[0]) {
+					okSel := true
+					for _, r := range returnsOf(g) {
+						for _, v := range returnValues(r, 0) {
+							for {
+								if mi, ok := v.(*ssa.MakeInterface); ok {
+									v = mi.X
+									continue
+								}
+								if ci2, ok := v.(*ssa.ChangeInterface); ok {
+									v = ci2.X
+									continue
+								}
+								break
+							}
+							ga := m.ap(v)
+							if ga.Root != ssa.Value(g.Params[0]) || len(ga.Path) != 1 {
+								okSel = false
+								continue
+							}
+							impls[ga.Path[0]] = true
+						}
+					}
+					if !okSel {
+						bad = "call is not on one of the receiver's implementations"
+					}
+					goto checkArgs
+				}
+			}
 			if ra.Root != ssa.Value(f.Params[0]) || len(ra.Path) != 1 {
 				bad = "call is not on one of the receiver's implementations"
 				continue
 			}
 			impls[ra.Path[0]] = true
+		checkArgs:
 			if cc.Method.Name() != f.Name() {
 				bad = fmt.Sprintf("forwards to %s instead of %s: the plugin receives another request type", cc.Method.Name(), f.Name())
 			}
